@@ -69,7 +69,7 @@ var (
 		`/usr/lib`, `@{lib}`,
 		`/usr/(bin|sbin)`, `@{bin}`,
 		`(x86_64|amd64|i386|i686)`, `@{arch}`,
-		`@{arch}-*linux-gnu[^/]?`, `@{multiarch}`,
+		`@{arch}-linux-gnu[^/]?`, `@{multiarch}`,
 		`/usr/etc/`, `@{etc_ro}/`,
 		`/var/run/`, `@{run}/`,
 		`/run/`, `@{run}/`,
